@@ -199,20 +199,29 @@ def replay_all(graph, adapter, select=None):
             by_from.setdefault(e["_fk"], []).append(e)
     order = sorted(by_from, key=lambda k: len(graph.path.get(k, ())))
     bad_edges = set()  # ids of diverging edges
+    checked = set()  # ids of tree edges already found conforming
+    judged = set()
     stats = {"replayed": 0, "nontrivial": 0, "skipped_below_divergence": 0, "builds": 0}
     divs = []
 
     def judge(e, got, behaviour, root):
         exp = e["obs"]
         field, d = ordered_diff(exp, got)
-        stats["replayed"] += 1
-        if e["_fk"] != e["_tk"]:
-            stats["nontrivial"] += 1
+        if id(e) not in judged:
+            judged.add(id(e))
+            stats["replayed"] += 1
+            if e["_fk"] != e["_tk"]:
+                stats["nontrivial"] += 1
+        elif d and id(e) in bad_edges:
+            return d
         if d:
             bad_edges.add(id(e))
             divs.append({"diverged_at": len(behaviour), "first_difference": d, "field": field, "root": root,
                          "behaviour": behaviour, "action": e["act"], "expected": exp, "observed": got})
         return d
+
+    class BadPrefix(Exception):
+        pass
 
     for fk in order:
         pre = graph.path.get(fk)
@@ -226,28 +235,38 @@ def replay_all(graph, adapter, select=None):
         pre_acts = [p["act"] for p in pre]
 
         def fresh():
+            """a world standing in the source state; every step of the way there is compared with the specification
+            (with sampling, a tree edge may not have been judged on its own): the first step that differs is the
+            one reported, and nothing below it is judged"""
             w = adapter.build(root)
             stats["builds"] += 1
-            for a in pre_acts:
-                adapter.apply(w, a)
+            for i, p in enumerate(pre):
+                adapter.apply(w, p["act"])
+                if id(p) not in checked:
+                    if judge(p, adapter.project(w), pre_acts[: i + 1], root):
+                        raise BadPrefix()
+                    checked.add(id(p))
             return w
 
-        w = fresh()
-        done = []  # refusals already executed on w (all conforming)
-        loops = [e for e in out if e["_fk"] == e["_tk"]]
-        moves = [e for e in out if e["_fk"] != e["_tk"]]
-        for e in loops:
-            adapter.apply(w, e["act"])
-            if judge(e, adapter.project(w), pre_acts + done + [e["act"]], root):
-                w, done = fresh(), []
-            else:
-                done = done + [e["act"]]
-        for n, e in enumerate(moves):
-            if n > 0:
-                w, done = fresh(), []
-            adapter.apply(w, e["act"])
-            got = adapter.project(w)
-            judge(e, got, pre_acts + done + [e["act"]], root)
+        try:
+            w = fresh()
+            done = []  # refusals already executed on w (all conforming)
+            loops = [e for e in out if e["_fk"] == e["_tk"]]
+            moves = [e for e in out if e["_fk"] != e["_tk"]]
+            for e in loops:
+                adapter.apply(w, e["act"])
+                if judge(e, adapter.project(w), pre_acts + done + [e["act"]], root):
+                    w, done = fresh(), []
+                else:
+                    done = done + [e["act"]]
+            for n, e in enumerate(moves):
+                if n > 0:
+                    w, done = fresh(), []
+                adapter.apply(w, e["act"])
+                if not judge(e, adapter.project(w), pre_acts + done + [e["act"]], root):
+                    checked.add(id(e))
+        except BadPrefix:
+            stats["skipped_below_divergence"] += len(out)
     return stats, divs
 
 
@@ -436,7 +455,9 @@ def check_model(rep, cfgfile, label, timeout=3000, workers=None):
     return res
 
 
-def emit_and_replay(rep, cfgfile, label, variants, rng, n_states=None):
+def emit_and_replay(rep, cfgfile, label, variants, rng):
+    """variants: (geometry, symmetry, number of sampled deeper source states or None for every edge); the first variant
+    also gets every edge leaving the roots"""
     eres = tlc.run("FuelShuffle_mc", cfgfile, MODDIR, workers=1, coverage=False, timeout=3000)
     rep.add_tlc("edges:" + label, eres)
     cfg, g = load_graph(eres)
@@ -444,11 +465,11 @@ def emit_and_replay(rep, cfgfile, label, variants, rng, n_states=None):
     missing = {"Swap", "SwapMismatch", "Cascade", "Add", "AddOccupied", "Remove", "DischargeSwap", "DischargeMismatch"} - names
     if missing:
         raise tlc.MachineryError("emission of %s lacks actions %s" % (cfgfile, sorted(missing)))
-    for vi, (geom, symmetry, share) in enumerate(variants):
+    for vi, (geom, symmetry, n_states) in enumerate(variants):
         ad = CoreAdapter(cfg, geom=geom, symmetry=symmetry)
         sel = None
         if n_states is not None:
-            sel = sample_selector(g, rng, max(1, int(n_states * share)), roots=(vi == 0))
+            sel = sample_selector(g, rng, n_states, roots=(vi == 0))
         stats, divs = replay_all(g, ad, select=sel)
         if stats["replayed"] == 0:
             raise tlc.MachineryError("empty replay batch " + label)
@@ -471,25 +492,26 @@ def run(rep, tier, seed):
     tlc.sany("FuelShuffle_mc", MODDIR)
     tlc.sany("FuelShuffle_trace", MODDIR)
     # 1. exhaustive model checking of the reference design: every invariant / action property, per-action coverage
-    check_model(rep, "FuelShuffle_mc.cfg", "coreS-depth4")
     if thorough:
         check_model(rep, "FuelShuffle_mc_thorough.cfg", "coreS-depth5")
         check_model(rep, "FuelShuffle_mcT.cfg", "coreT-depth4")
+    else:
+        check_model(rep, "FuelShuffle_mc.cfg", "coreS-depth4")
     rep.exhaustive = True
 
     # 2. spec -> code
     if thorough:
-        emit_and_replay(rep, "FuelShuffle_emit.cfg", "coreS-depth3", (("hex", "full", 1), ("hex", "third", 1), ("cartesian", "full", 1)), rng)
-        emit_and_replay(rep, "FuelShuffle_emitT.cfg", "coreT-depth3", (("hex", "full", 1.0), ("hex", "third", 0.3), ("cartesian", "full", 0.3)), rng, n_states=400)
+        emit_and_replay(rep, "FuelShuffle_emit.cfg", "coreS-depth3", (("hex", "full", None), ("hex", "third", 60), ("cartesian", "full", 60)), rng)
+        emit_and_replay(rep, "FuelShuffle_emitT.cfg", "coreT-depth3", (("hex", "full", 160), ("hex", "third", 50), ("cartesian", "full", 50)), rng)
     else:
-        emit_and_replay(rep, "FuelShuffle_emit.cfg", "coreS-depth3", (("hex", "full", 0.5), ("hex", "third", 0.25), ("cartesian", "full", 0.25)), rng, n_states=44)
+        emit_and_replay(rep, "FuelShuffle_emit.cfg", "coreS-depth3", (("hex", "full", 22), ("hex", "third", 11), ("cartesian", "full", 11)), rng)
 
     # 3. code -> spec
-    plans = [("FuelShuffle_trace_M.cfg", "coreM-hex-full", "hex", "full", 240 if thorough else 40, 150 if thorough else 50)]
+    plans = [("FuelShuffle_trace_M.cfg", "coreM-hex-full", "hex", "full", 120 if thorough else 40, 150 if thorough else 50)]
     if thorough:
-        plans += [("FuelShuffle_trace_M.cfg", "coreM-hex-third", "hex", "third", 120, 150),
-                  ("FuelShuffle_trace_N.cfg", "coreN-cartesian", "cartesian", "full", 120, 300),
-                  ("FuelShuffle_trace_N.cfg", "coreN-hex-full", "hex", "full", 60, 300)]
+        plans += [("FuelShuffle_trace_M.cfg", "coreM-hex-third", "hex", "third", 60, 150),
+                  ("FuelShuffle_trace_N.cfg", "coreN-cartesian", "cartesian", "full", 60, 250),
+                  ("FuelShuffle_trace_N.cfg", "coreN-hex-full", "hex", "full", 30, 250)]
     cfgs = {}
     for i, (cfgfile, label, geom, symmetry, ntr, nev) in enumerate(plans):
         if cfgfile not in cfgs:
